@@ -30,14 +30,31 @@ fn nn(s: &str) -> NamedNode {
     NamedNode::new_unchecked(s)
 }
 
+/// How the value of ?v of a row gets there: stored as such, or computed by BIND(?x - B AS ?v) from a stored x = v + B with B beyond
+/// 64 bits (the same integer in exact arithmetic, but a value that went through the engine's arbitrary-precision path).
+#[derive(Clone, Default)]
+pub struct Computed {
+    pub rows: Vec<bool>,
+    pub big: i128,
+    /// the first key is the expression (?v + 0) instead of the variable ?v (only used when every bound v is an integer)
+    pub expr_key: bool,
+}
+
 /// rows: (v, w) with None = unbound; returns the ordered (v, w) sequence
 fn order(rows: &[(Option<ST>, Option<ST>)], keys: &[(usize, bool)]) -> Result<Vec<Value>, String> {
+    order_with(rows, keys, &Computed::default())
+}
+
+fn order_with(rows: &[(Option<ST>, Option<ST>)], keys: &[(usize, bool)], comp: &Computed) -> Result<Vec<Value>, String> {
     // one subject per row; a row without v (resp. w) simply lacks that triple; rows come from a UNION of the four shapes
     let mut d: Vec<Spog<ST>> = vec![];
     let (pv, pw, pr) = (iri("http://ex/v"), iri("http://ex/w"), iri("http://ex/row"));
     for (i, (v, w)) in rows.iter().enumerate() {
         let s = iri(&format!("http://ex/r{i}"));
+        let computed = comp.rows.get(i).copied().unwrap_or(false) && v.is_some();
         let shape = match (v.is_some(), w.is_some()) {
+            (true, true) if computed => "xw",
+            (true, false) if computed => "x",
             (true, true) => "vw",
             (true, false) => "v",
             (false, true) => "w",
@@ -45,7 +62,12 @@ fn order(rows: &[(Option<ST>, Option<ST>)], keys: &[(usize, bool)]) -> Result<Ve
         };
         d.push(([s.clone(), pr.clone(), lit_dt(shape, &format!("{XSD}string"))], None));
         if let Some(v) = v {
-            d.push(([s.clone(), pv.clone(), v.clone()], None));
+            if computed {
+                let c: i128 = sophia_api::term::Term::lexical_form(v).unwrap().parse().expect("computed rows hold canonical integers");
+                d.push(([s.clone(), iri("http://ex/x"), lit_dt(&(c + comp.big).to_string(), &format!("{XSD}integer"))], None));
+            } else {
+                d.push(([s.clone(), pv.clone(), v.clone()], None));
+            }
         }
         if let Some(w) = w {
             d.push(([s.clone(), pw.clone(), w.clone()], None));
@@ -63,11 +85,27 @@ fn order(rows: &[(Option<ST>, Option<ST>)], keys: &[(usize, bool)]) -> Result<Ve
         GraphPattern::Bgp { patterns: pats }
     };
     let u = |l: GraphPattern, r: GraphPattern| GraphPattern::Union { left: Box::new(l), right: Box::new(r) };
-    let inner = u(u(shape("vw", true, true), shape("v", true, false)), u(shape("w", false, true), shape("none", false, false)));
+    let mut inner = u(u(shape("vw", true, true), shape("v", true, false)), u(shape("w", false, true), shape("none", false, false)));
+    if comp.rows.iter().any(|c| *c) {
+        let int = |x: i128| Expression::Literal(spargebra::term::Literal::new_typed_literal(x.to_string(), nn(&format!("{XSD}integer"))));
+        let xshape = |name: &str, withw: bool| {
+            let mut pats = vec![tp("http://ex/row", TermPattern::Literal(spargebra::term::Literal::new_simple_literal(name))), tp("http://ex/x", TermPattern::Variable(var("x")))];
+            if withw {
+                pats.push(tp("http://ex/w", TermPattern::Variable(var("w"))));
+            }
+            GraphPattern::Extend { inner: Box::new(GraphPattern::Bgp { patterns: pats }), variable: var("v"), expression: Expression::Subtract(Box::new(Expression::Variable(var("x"))), Box::new(int(comp.big))) }
+        };
+        inner = u(inner, u(xshape("xw", true), xshape("x", false)));
+    }
     let expression: Vec<OrderExpression> = keys
         .iter()
         .map(|(k, desc)| {
             let e = Expression::Variable(var(if *k == 0 { "v" } else { "w" }));
+            let e = if comp.expr_key && *k == 0 {
+                Expression::Add(Box::new(e), Box::new(Expression::Literal(spargebra::term::Literal::new_typed_literal("0", nn(&format!("{XSD}integer"))))))
+            } else {
+                e
+            };
             if *desc { OrderExpression::Desc(e) } else { OrderExpression::Asc(e) }
         })
         .collect();
@@ -158,7 +196,39 @@ pub fn run(rng: &mut Rng, tr: &mut Trace, n: usize) {
                 Err(m) => failure = Some(format!("panic: {m}")),
             }
         }
-        tr.emit(json!({"ev":"OrderBy","big":big,"keys":keys.iter().map(|(k, d)| json!({"k":k + 1,"desc":d})).collect::<Vec<_>>(),
+        tr.emit(json!({"ev":"OrderBy","computed":[],"big":big,"keys":keys.iter().map(|(k, d)| json!({"k":k + 1,"desc":d})).collect::<Vec<_>>(),
+            "rows":rows.iter().map(|(v, w)| json!([cell(v), cell(w)])).collect::<Vec<_>>(),"outs":outs,"failed":failure.is_some(),"msg":failure.unwrap_or_default()}));
+    }
+    // values that went through arbitrary-precision arithmetic, next to stored ones: the key of a computed row is BIND(?x - B AS ?v)
+    let ints: Vec<ST> = ["5", "10", "9", "-3", "0", "1", "3", "7", "-1"].iter().map(|l| lit_dt(l, &format!("{XSD}integer"))).collect();
+    let bigs: [i128; 4] = [100_000_000_000_000_000_000, -100_000_000_000_000_000_000, 9_223_372_036_854_775_808, 18_446_744_073_709_551_616];
+    for i in 0..n / 2 {
+        let expr_key = i % 3 == 2;
+        let k = 3 + rng.below(2);
+        let two_keys = i % 2 == 0;
+        let mut comp = Computed { rows: vec![], big: bigs[i % bigs.len()], expr_key };
+        let rows: Vec<(Option<ST>, Option<ST>)> = (0..k)
+            .map(|_| {
+                let computed = rng.chance(2, 5);
+                comp.rows.push(computed);
+                let v = if computed || expr_key || rng.chance(1, 2) { Some(rng.pick(&ints).clone()) } else if rng.chance(1, 8) { None } else { Some(rng.pick(&u).clone()) };
+                let w = if !two_keys || rng.chance(1, 6) { None } else { Some(rng.pick(&u[..4]).clone()) };
+                (v, w)
+            })
+            .collect();
+        let keys: Vec<(usize, bool)> = if two_keys { vec![(0, rng.chance(1, 2)), (1, rng.chance(1, 2))] } else { vec![(0, rng.chance(1, 2))] };
+        let mut outs: Vec<Value> = vec![];
+        let mut failure: Option<String> = None;
+        for p in &permutations(k) {
+            let permuted: Vec<(Option<ST>, Option<ST>)> = p.iter().map(|j| rows[*j].clone()).collect();
+            let pc = Computed { rows: p.iter().map(|j| comp.rows[*j]).collect(), big: comp.big, expr_key };
+            match guarded(|| order_with(&permuted, &keys, &pc)) {
+                Ok(Ok(o)) => outs.push(Value::Array(o)),
+                Ok(Err(e)) => failure = Some(format!("error: {e}")),
+                Err(m) => failure = Some(format!("panic: {m}")),
+            }
+        }
+        tr.emit(json!({"ev":"OrderBy","computed":comp.rows,"viaBig":comp.big.to_string(),"exprKey":expr_key,"big":false,"keys":keys.iter().map(|(k, d)| json!({"k":k + 1,"desc":d})).collect::<Vec<_>>(),
             "rows":rows.iter().map(|(v, w)| json!([cell(v), cell(w)])).collect::<Vec<_>>(),"outs":outs,"failed":failure.is_some(),"msg":failure.unwrap_or_default()}));
     }
 }
